@@ -133,7 +133,7 @@ def check(run):
     open(os.path.join(wd, "writer.py"), "w").write(WRITER)
     dist = {"kill_points": 0, "torn_writes": 0, "benign_journals": 0, "sqlite_reports": {}, "sqlittle": {}, "configs": []}
     configs = [("DELETE", 512, 300, ()), ("TRUNCATE", 1024, 300, ()), ("PERSIST", 512, 200, ()), ("DELETE", 1024, 200, ("psow0",))] if quick else \
-              [(m, u, r, x) for m in ("DELETE", "TRUNCATE", "PERSIST") for u, r in ((512, 400), (1024, 600), (4096, 2000)) for x in ((), ("psow0",))]
+              [(m, u, r, x) for m in ("DELETE", "TRUNCATE", "PERSIST") for u, r, x in ((512, 400, ()), (1024, 600, ()), (1024, 300, ("psow0",)), (4096, 1500, ()))]
     for mode, u, nrows, extra in configs:
         base = os.path.join(wd, "base-%s-%d.db" % (mode, u))
         make_base(base, u, nrows)
@@ -206,6 +206,8 @@ def check(run):
             ks = list(range(1, n + 1))
             if quick and n > 14:
                 ks = sorted(set(ks[:6] + ks[-5:] + rng.sample(ks, 5)))
+            elif n > 120:
+                ks = sorted(set(ks[:40] + ks[-30:] + rng.sample(ks, 50)))
             for k in ks:
                 fresh()
                 rc = run_writer(py, wd, db, mode, inject=(name, k), extra=extra)
